@@ -65,7 +65,8 @@ pub fn string_cfg(id: &str) -> GenCfg {
         sync_only: false,
     };
     match id {
-        "C01" => {}
+        // a prefix is a print-side feature; the parser must ignore it (inputs include prefix + spelling)
+        "C01" | "C11" | "C12" | "C16" | "C18" => c.allow_prefix = true,
         _ => {}
     }
     let _ = &mut c;
@@ -261,12 +262,24 @@ pub fn plan(id: &str, tier: &str, seed: u64, round: u64) -> Plan {
             let mut cfg = string_cfg(id);
             cfg.ci_heavy = true;
             cfg.allow_default_with = false;
-            let mut specs: Vec<EnumSpec> = (0..n).map(|_| gen::gen_string(&mut rg, &cfg)).collect();
+            let mut specs: Vec<EnumSpec> = (0..n)
+                .map(|i| {
+                    let mut c = cfg.clone();
+                    // a quarter of the programs are field-less Clone enums parsed through the phf map
+                    if i % 4 == 1 {
+                        c.allow_fields = false;
+                        c.allow_generics = false;
+                        c.sync_only = true;
+                        c.phf = true;
+                    }
+                    gen::gen_string(&mut rg, &c)
+                })
+                .collect();
             name_specs(&mut specs, round);
             Plan {
                 specs,
                 params: params(&[("cases", if thorough { 5000 } else { 400 }), ("max_flip_letters", if thorough { 12 } else { 10 })]),
-                strum_features: vec!["derive".into()],
+                strum_features: vec!["derive".into(), "phf".into()],
                 profiles: vec!["dev"],
                 policy: Policy::TaggedOnly,
                 rule: "programs: EnumString enums x enum-level ascii_case_insensitive on/off x variant flag absent / bare / = true / = false, spellings mixing ASCII and non-ASCII letters (ü/Ü, ß/ẞ, İ, Kelvin sign, long s, dotless i). Inputs: ALL 2^k case flips of each spelling (k <= max_flip_letters), every single look-alike substitution and every case flip of a non-ASCII letter, the same against case-sensitive variants, plus generated inputs. Oracle: reference parser folding only A-Z/a-z byte-wise. Non-trivial = non-identity flip, look-alike, edit or derived name on an enum with >= 2 enabled variants; distinct by (program, input).".into(),
